@@ -206,7 +206,11 @@ def reset_rule(ctx, rep, ftab):
                 continue
             for f, v in sorted(run.analyse().items()):
                 key = (f, is_ctl)
-                if v["reset"]:
+                if v.get("reset_after_use") and v["read_in"]:
+                    st, det = VIOLATION, ("%s::%s is cleared by %s only after the run has already used it: a run that fails "
+                                          "before the clean-up leaves its state to the next run on the same object (as "
+                                          "class %s)" % (f[0], f[1], run.entry.base, k))
+                elif v["reset"]:
                     st, det = DISCHARGED, "re-initialised on every successful run"
                 elif not v["read_in"]:
                     st, det = DISCHARGED, "written on some paths only, but no method of the run reads it (cannot influence the output)"
